@@ -4,7 +4,7 @@
    exactly the encoded field values. *)
 From Model Require Import Bytes Prim Tables Cert KAC Mapping Sig LS RI.
 From Spec Require Import Wire SpecTables.
-From Proofs Require Import SpecProofs KacProofs MapRT SpecRA SpecRI.
+From Proofs Require Import SpecProofs KacProofs MapRT SpecRA SpecRI LS2Accept SpecLS2 LSStrip.
 Open Scope Z_scope.
 
 Theorem C02_certificate : forall t payload r, (t < 256)%N -> (nlen payload < 65536)%N ->
@@ -90,6 +90,106 @@ Example C02_router_info_nonvacuous :
   match read_router_info (b ++ [8%N]) with
   | Ok (i, [r]) => match router_info_bytes i with
                    | Ok b' => bytes_eqb b' b && (r =? 8)%N && (length (ri_addrs i) =? 1)%nat
+                   | _ => false
+                   end
+  | _ => false
+  end = true.
+Proof. vm_compute. reflexivity. Qed.
+(* LeaseSet2 as a whole, in the specification's encoders: any destination block the destination
+   reader accepts in front of this body, header fields within their widths, an offline block
+   present exactly when the flag says so and of the sizes its types dictate, any valid options, 1..16
+   keys, up to 16 Lease2, a signature of the length of the (transient or destination) signing type:
+   accepted followed by anything (whole-input minimum aside, finding D6), exactly consumed, every
+   field returned as encoded, and the value serialises back to the encoding *)
+Theorem C02_lease_set2 : forall db dest d' published expires flags off opts keys leases n sg r,
+  let body := spec_ls2_body published expires flags off opts keys leases sg in
+  kac_bytes dest = Ok db ->
+  read_destination (db ++ body ++ r) = Ok (d', body ++ r) -> kac_bytes d' = Ok db ->
+  kc_signing_type (k_kc d') = kc_signing_type (k_kc dest) ->
+  (published < 2 ^ 32)%N -> (expires < 2 ^ 16)%N -> (flags < 2 ^ 16)%N ->
+  match off with
+  | Some (e, st, k, s) => has_offline flags = true /\
+      offline_fits (Z.to_N (kc_signing_type (k_kc dest) mod 65536)) (mkOff e st k s (Z.to_N (kc_signing_type (k_kc dest) mod 65536)))
+  | None => has_offline flags = false
+  end ->
+  opts_ok opts ->
+  (1 <= length keys <= 16)%nat -> Forall (fun k => (fst k < 65536)%N /\ (nlen (snd k) < 65536)%N) keys ->
+  (length leases <= 16)%nat -> Forall (fun x => length x = LEASE2_SIZE) leases ->
+  sig_length (spec_final_sig_type dest flags off) = Some n -> Z.of_nat (length sg) = n ->
+  Gen.Consts.c_lease_set2_LEASESET2_MIN_SIZE <= Z.of_nat (length (db ++ body ++ r)) ->
+  exists l', read_lease_set2 ((db ++ body) ++ r) = Ok (l', r) /\
+    lease_set2_bytes l' = Ok (db ++ body) /\
+    l2_dest l' = d' /\ l2_published l' = published /\ l2_expires l' = expires /\ l2_flags l' = flags /\
+    map_values (l2_options l') = map wire_pair opts /\
+    l2_keys l' = map (fun k => mkEK (fst k) (nlen (snd k)) (snd k)) keys /\ l2_leases l' = leases /\
+    sig_bytes (l2_sig l') = sg.
+Proof. exact spec_lease_set2_accepted. Qed.
+Print Assumptions C02_lease_set2.
+(* LeaseSet (version 1): destination || ElGamal key (256) || signing key (of the destination's
+   type; 128 for a NULL certificate) || count (1) || Lease (44) x n || signature (of the destination's
+   type; 40 for a NULL certificate) *)
+Theorem C02_lease_set : forall db dest kco ek skd (ls : list bytes) sgb sg y,
+  let rest := ek ++ skd ++ [N.of_nat (length ls)] ++ concat ls ++ sgb in
+  (387 <= length db)%nat ->
+  read_destination_from_leaseset (db ++ rest ++ y) = Ok (dest, rest ++ y) ->
+  length ek = 256%nat -> Model.ExtCrypto.elg_pubkey_ok ek = true ->
+  dest_keycert_opt dest = Ok kco ->
+  0 <= ls_sks kco -> Z.of_nat (length skd) = ls_sks kco ->
+  match kco with
+  | Some kc => construct_signing_public_key kc skd
+  | None => if Model.ExtCrypto.dsa_pubkey_ok skd then Ok skd else Err
+  end = Ok skd ->
+  (length ls <= 16)%nat -> Forall (fun l => length l = LEASE_SIZE) ls ->
+  0 <= ls_ss kco -> Z.of_nat (length sgb) = ls_ss kco ->
+  new_signature_from_bytes sgb (ls_st kco) = Ok sg ->
+  read_lease_set ((db ++ rest) ++ y) = Ok (mkLS dest ek skd (Z.of_nat (length ls)) ls sg) /\
+  lease_set_bytes (mkLS dest ek skd (Z.of_nat (length ls)) ls sg) =
+    (do dbb <- kac_bytes dest; Ok (dbb ++ ek ++ skd ++ [N.of_nat (length ls)] ++ concat ls ++ sig_bytes sg)).
+Proof. exact lease_set_built_accepted. Qed.
+Print Assumptions C02_lease_set.
+(* MetaLeaseSet, likewise: header, options, 1..16 entries (hash (32) type (1) expires (4) cost (1)
+   properties), signature *)
+Theorem C02_meta_lease_set : forall db dest d' published expires flags off opts entries n sg r,
+  let body := spec_meta_body published expires flags off opts entries sg in
+  kac_bytes dest = Ok db ->
+  read_destination (db ++ body ++ r) = Ok (d', body ++ r) -> kac_bytes d' = Ok db ->
+  kc_signing_type (k_kc d') = kc_signing_type (k_kc dest) ->
+  (published < 2 ^ 32)%N -> (expires < 2 ^ 16)%N -> (flags < 2 ^ 16)%N ->
+  match off with
+  | Some (e, st, k, s) => has_offline flags = true /\
+      offline_fits (Z.to_N (kc_signing_type (k_kc dest) mod 65536)) (mkOff e st k s (Z.to_N (kc_signing_type (k_kc dest) mod 65536)))
+  | None => has_offline flags = false
+  end ->
+  opts_ok opts ->
+  Gen.Consts.c_meta_leaseset_META_LEASESET_MIN_ENTRIES <= Z.of_nat (length entries) <= Gen.Consts.c_meta_leaseset_META_LEASESET_MAX_ENTRIES ->
+  Forall spec_mentry_ok entries ->
+  sig_length (spec_final_sig_type dest flags off) = Some n -> Z.of_nat (length sg) = n ->
+  Gen.Consts.c_meta_leaseset_META_LEASESET_MIN_SIZE <= Z.of_nat (length (db ++ body ++ r)) ->
+  exists l', read_meta_lease_set ((db ++ body) ++ r) = Ok (l', r) /\
+    meta_lease_set_bytes l' = Ok (db ++ body) /\
+    ml_published l' = published /\ ml_expires l' = expires /\ ml_flags l' = flags /\
+    map_values (ml_options l') = map wire_pair opts /\ ml_num l' = N.of_nat (length entries) /\
+    length (ml_entries l') = length entries /\ sig_bytes (ml_sig l') = sg.
+Proof. exact spec_meta_lease_set_accepted. Qed.
+Print Assumptions C02_meta_lease_set.
+(* EncryptedLeaseSet: sig_type (2) || blinded key || published (4) || expires (2) || flags (2) ||
+   [offline signature] || inner length (2) || encrypted inner data || signature: the serialisation of
+   every valid value that fits its field widths IS this layout, and is accepted, followed by anything,
+   as the very same value *)
+Theorem C02_encrypted_lease_set : forall l r, els_validate l = true -> Proofs.ElsChain.els_fits l ->
+  els_bytes l = spec_els (el_sigtype l) (el_key l) (el_published l) (el_expires l) (el_flags l)
+                         (els_off_spec (el_offline l)) (el_inner l) (sig_bytes (el_sig l)) /\
+  read_encrypted_lease_set (els_bytes l ++ r) = Ok (l, r).
+Proof. exact spec_els_accepted. Qed.
+Print Assumptions C02_encrypted_lease_set.
+Example C02_lease_set2_nonvacuous :
+  let db := spec_identity (repeatN 1 32) (repeatN 2 320) (repeatN 3 32) (spec_keycert 7 4 []) in
+  let body := spec_ls2_body 1700000000 600 1 (Some (1800000000%N, 7%N, repeatN 4 32, repeatN 6 64)) [([97]%N, [98]%N)]
+                [(4%N, repeatN 7 32)] [repeatN 9 40; repeatN 8 40] (repeatN 5 64) in
+  match read_lease_set2 ((db ++ body) ++ [8%N]) with
+  | Ok (l, [r]) => match lease_set2_bytes l with
+                   | Ok b' => bytes_eqb b' (db ++ body) && (r =? 8)%N && (length (l2_leases l) =? 2)%nat &&
+                              match l2_offline l with Some o => (o_expires o =? 1800000000)%N | None => false end
                    | _ => false
                    end
   | _ => false
